@@ -58,3 +58,120 @@ Inductive spells_num : obj -> bytes -> Prop :=
     sign neg sg -> all_digits ds -> fs <> [] -> all_digits fs ->
     (dec_val (ds ++ fs) <= i128_maxZ)%Z -> (10 ^ Z.of_nat (len fs) <= i128_maxZ)%Z ->
     spells_num (OReal (signed neg (dec_val (ds ++ fs))) (10 ^ Z.of_nat (len fs))) (sg ++ ds ++ 46%N :: fs).
+
+(* non-negative integers as written in references: [+]? digit+ (or -0…0) *)
+Inductive spells_nat : N -> bytes -> Prop :=
+| sp_nat neg sg ds :
+    sign neg sg -> ds <> [] -> all_digits ds -> (dec_val ds <= i64_maxZ)%Z ->
+    (neg = true -> dec_val ds = 0%Z) ->
+    spells_nat (Z.to_N (dec_val ds)) (sg ++ ds).
+
+(* ------------------------------------------------------------------ names *)
+Definition hexb (b : N) : bool :=
+  ((48 <=? b) && (b <=? 57) || (97 <=? b) && (b <=? 102) || (65 <=? b) && (b <=? 70))%N.
+Definition hexval (b : N) : N :=
+  if ((48 <=? b) && (b <=? 57))%N then (b - 48)%N
+  else if ((97 <=? b) && (b <=? 102))%N then (b - 87)%N else (b - 55)%N.
+
+(* a raw '#' must not be followed by two hex digits (it would be read as an escape) *)
+Definition accidental_escape (b : N) (enc : bytes) : Prop :=
+  b = 35%N /\ match enc with h1 :: h2 :: _ => hexb h1 = true /\ hexb h2 = true | _ => False end.
+
+Inductive name_enc : bytes -> bytes -> Prop :=
+| ne_nil : name_enc [] []
+| ne_raw b bs enc :                     (* a regular byte written as itself *)
+    memb b name_stops = false -> ~ accidental_escape b enc -> name_enc bs enc -> name_enc (b :: bs) (b :: enc)
+| ne_esc b h1 h2 bs enc :               (* any non-zero byte written #hh, either case *)
+    hexb h1 = true -> hexb h2 = true -> b = (16 * hexval h1 + hexval h2)%N -> b <> 0%N ->
+    name_enc bs enc -> name_enc (b :: bs) (35%N :: h1 :: h2 :: enc).
+
+(* ------------------------------------------------------------------ hexadecimal strings *)
+Definition hexws (b : N) : bool := memb b [32; 13; 10; 9; 0; 12]%N.
+Inductive hex_gap : bytes -> Prop :=      (* whitespace allowed anywhere inside < > *)
+| hg_nil : hex_gap []
+| hg_cons b r : hexws b = true -> hex_gap r -> hex_gap (b :: r).
+
+Inductive hex_enc : bytes -> bytes -> Prop :=
+| he_nil g : hex_gap g -> hex_enc [] g
+| he_odd g1 h g2 : hex_gap g1 -> hexb h = true -> hex_gap g2 ->      (* a final single digit is padded with 0 *)
+    hex_enc [(16 * hexval h)%N] (g1 ++ h :: g2)
+| he_byte g1 h1 g2 h2 bs body :
+    hex_gap g1 -> hexb h1 = true -> hex_gap g2 -> hexb h2 = true -> hex_enc bs body ->
+    hex_enc ((16 * hexval h1 + hexval h2)%N :: bs) (g1 ++ h1 :: g2 ++ h2 :: body).
+
+(* ------------------------------------------------------------------ literal strings *)
+(* balanced modulo backslash pairs: a backslash protects the byte that follows it *)
+Fixpoint balanced_from (depth : nat) (body : bytes) : bool :=
+  match body with
+  | [] => Nat.eqb depth 0
+  | 92%N :: _ :: r => balanced_from depth r
+  | [92%N] => false
+  | 40%N :: r => balanced_from (S depth) r
+  | 41%N :: r => match depth with O => false | S d => balanced_from d r end
+  | _ :: r => balanced_from depth r
+  end.
+Definition balanced (body : bytes) : Prop := balanced_from 0 body = true.
+
+(* ------------------------------------------------------------------ objects *)
+(* tokens that end in a regular character must be followed by whitespace, a delimiter or the end *)
+Definition term_stop (rest : bytes) : Prop :=
+  match rest with [] => True | b :: _ => memb b name_stops = true end.
+
+(* the dictionary denoted by an entry list, built as the parser's BTreeMap; None if a key that
+   is already bound to a non-null value is spelled again (such a text is rejected) *)
+Fixpoint dict_of (ents : list (bytes * obj)) (acc : list (bytes * obj)) : option (list (bytes * obj)) :=
+  match ents with
+  | [] => Some acc
+  | (k, v) :: r =>
+    if existsb (fun kv => bytes_eqb k (fst kv)) acc then None
+    else match v with
+         | ONull => dict_of r acc
+         | _ => dict_of r (fst (dict_insert k v acc))
+         end
+  end.
+
+Section Spells.
+  (* [int_follow rest]: what follows an integer is not read as the rest of a reference
+     (not  ws+ integer ws+ "R").  Abstract here; Proofs instantiate it with the parser's own look-ahead. *)
+  Variable int_follow : bytes -> Prop.
+
+  Definition follow (v : obj) (rest : bytes) : Prop :=
+    match v with
+    | OInt _ => term_stop rest /\ int_follow rest
+    | OReal _ _ | OName _ | ONull | OBool _ | ORef _ _ => term_stop rest
+    | _ => True
+    end.
+
+  (* [spells n v sp]: sp is a spelling of v whose bracket nesting is at most n (a primitive is 1;
+     a dropped `key null` pair nests like any other entry) *)
+  Inductive spells : nat -> obj -> bytes -> Prop :=
+  | sp_null n : spells (S n) ONull kw_null
+  | sp_true n : spells (S n) (OBool true) kw_true
+  | sp_false n : spells (S n) (OBool false) kw_false
+  | sp_number n v sp : spells_num v sp -> spells (S n) v sp
+  | sp_name n bs enc : name_enc bs enc -> spells (S n) (OName bs) (47%N :: enc)
+  | sp_lit n body : balanced body -> spells (S n) (OStr body) (40%N :: body ++ [41%N])
+  | sp_hex n bs body : hex_enc bs body -> spells (S n) (OStr bs) (60%N :: body ++ [62%N])
+  | sp_ref n' n g sn w1 sg w2 :
+      spells_nat n sn -> ws w1 -> w1 <> [] -> spells_nat g sg -> ws w2 -> w2 <> [] ->
+      spells (S n') (ORef n g) (sn ++ w1 ++ sg ++ w2 ++ [82%N])
+  | sp_arr n l body : items n l body -> spells (S n) (OArr l) (91%N :: body ++ [93%N])
+  | sp_dict n ents body d :
+      entries n ents body -> dict_of ents [] = Some d -> spells (S n) (ODict d) (60%N :: 60%N :: body ++ [62%N; 62%N])
+  (* elements: each after optional whitespace, in a follow context inside the brackets *)
+  with items : nat -> list obj -> bytes -> Prop :=
+  | items_nil n w : ws w -> items n [] w
+  | items_cons n w v sp l body :
+      ws w -> spells n v sp -> items n l body ->
+      (forall outer, follow v (body ++ 93%N :: outer)) ->
+      items n (v :: l) (w ++ sp ++ body)
+  (* entries in spelled order (null-valued pairs included) *)
+  with entries : nat -> list (bytes * obj) -> bytes -> Prop :=
+  | entries_nil n w : ws w -> entries n [] w
+  | entries_cons n w k enc w' v sp ents body :
+      ws w -> name_enc k enc -> ws w' ->
+      (w' = [] -> match sp with x :: _ => memb x name_stops = true | [] => False end) ->   (* the key must end *)
+      spells n v sp -> entries n ents body ->
+      (forall outer, follow v (body ++ 62%N :: 62%N :: outer)) ->
+      entries n ((k, v) :: ents) (w ++ 47%N :: enc ++ w' ++ sp ++ body).
+End Spells.
